@@ -60,6 +60,7 @@ def gen_params(rng, variant=None):
         {"prod": "work", "assets": "lib", "shots": "film", "output": "out", "export": "exp", "renders": "img"},
         {"prod": "P", "assets": "A", "shots": "S", "output": "O", "export": "E", "renders": "R"}])
     p["mapping_style"] = "demo" if ident else rng.choice(["demo", "identity", "swap", "demo", "partial"])
+    p["derived_configs"] = False if ident else rng.random() < 0.4      # secondary path configurations derived from the main module ("import *")
     p["constants"] = True if ident else rng.random() < 0.7
     p["explicit_intermediates"] = False if ident else rng.random() < 0.4
     return p
@@ -323,17 +324,37 @@ def emit(p, dirpath):
                   "key_patterns = copy.deepcopy(_kp)",
                   "key_patterns[''].update(%s)" % _py(kp or d["fs_key_patterns"])]
         return "\n".join(lines) + "\n"
+    if p.get("derived_configs"):
+        # secondary configurations written the documented way: "use the main configuration and override some elements"
+        def fsmod_generated(root_name, mapping=None, kp=None, defaults=None):
+            return fsmod(root_name, mapping, kp, defaults)
+
+        def fsmod_derived(root_name, mapping=None, kp=None, defaults=None):
+            lines = ["import copy", "from pathlib import Path", "from spil_fs_conf import *  # noqa", "from spil_fs_conf import project_root_path as _main_root",
+                     "project_root_path = Path(__file__).parent / 'data' / 'testing' / 'SPIL_PROJECTS' / %r / 'PROJECTS'" % root_name,
+                     "path_templates = {k: v.replace(_main_root.as_posix(), project_root_path.as_posix()) for k, v in path_templates.items()}"]
+            if defaults:
+                lines.append("path_defaults = %s" % _py(defaults))
+            if mapping:
+                lines.append("path_mapping = %s" % _py(mapping))
+            lines.append("key_patterns = copy.deepcopy(key_patterns)")
+            if kp:
+                lines.append("key_patterns[''].update(%s)" % _py(kp))
+            return "\n".join(lines) + "\n"
+        fs_main, fs_other = fsmod_generated, fsmod_derived
+    else:
+        fs_main = fs_other = fsmod
     with open(os.path.join(dirpath, "spil_fs_conf.py"), "w") as f:
-        f.write(fsmod("LOCAL"))
+        f.write(fs_main("LOCAL"))
     with open(os.path.join(dirpath, "spil_fs_server_conf.py"), "w") as f:
-        f.write(fsmod("SERVER"))
+        f.write(fs_other("SERVER"))
     configs = {"local": "spil_fs_conf", "server": "spil_fs_server_conf"}
     if d["third_config"]:
         with open(os.path.join(dirpath, "spil_fs_third_conf.py"), "w") as f:
             if d["third_mapping"]:
-                f.write(fsmod("BACKUP", d["third_mapping"], d["third_fs_key_patterns"], d["third_defaults"]))
+                f.write(fs_other("BACKUP", d["third_mapping"], d["third_fs_key_patterns"], d["third_defaults"]))
             else:
-                f.write(fsmod("BACKUP"))
+                f.write(fs_other("BACKUP"))
         configs["backup"] = "spil_fs_third_conf"
     state_types = [A + "__" + K["state"], S + "__" + K["state"]] + ([d["names"]["W"] + "__" + K["state"]] if d["names"]["W"] else [])
     data = '''
